@@ -227,6 +227,9 @@ pub fn run(ctx: &'static Ctx) -> (&'static str, Value, Vec<&'static str>) {
             let n = short_read_check(ctx, "decode_clutter_filter_map", &bytes, false, |r: &mut SplitReader| cfm::decode_clutter_filter_map(r).ok(), |shape| json!({"op": "short_read", "segments": sh.segments, "pattern": sh.pattern, "boundaries": shape.0, "max_chunk": shape.1}));
             stats.evaluations += n;
             stats.count("short_read_shapes", n);
+            let n = crate::guard::two_actor_check(ctx, "decode_clutter_filter_map", &bytes, 48, |r: &mut SplitReader| cfm::decode_clutter_filter_map(r).ok(), |mode, k| json!({"op": "short_read", "segments": sh.segments, "pattern": sh.pattern, "mode": mode, "read_call": k}));
+            stats.evaluations += n;
+            stats.count("two_actor_schedules", n);
         }
     }
     // truncations: every cut of the 1-segment/1-zone map and of a 2-segment mixed map
